@@ -137,7 +137,7 @@ def c08(k, ctx):
 
 def c01(k, ctx):
     ctx.rule = ("one case = one decode call on a freshly factory-built decoder: 36 names x seeded (matrix with row weight >= 2 up to 12x24 incl. duplicate rows, "
-                "4-cycles, degree-0/1 variables, disconnected parts) x 12 LLR classes (1e30, subnormal, 8-bit rounding boundaries, +-15.875, punctured zeros, "
+                "4-cycles, degree-0/1 variables, disconnected parts) x 13 LLR classes (1e30, subnormal, known bits at +-25..1e6 among ordinary values, 8-bit rounding boundaries, +-15.875, punctured zeros, "
                 "codewords, near-codewords, weak) x limits {0,1,2,5,50}; non-trivial = distinct (impl, rows, hard_in, limit) whose input sign pattern is NOT a codeword")
     ctx.tlc_mc("MC_BP", "MC_BP_thorough.cfg" if ctx.thorough else "MC_BP.cfg")
     ctx.vh("gen", "i2s")
@@ -458,7 +458,7 @@ def c07(k, ctx):
 def c19(k, ctx):
     ctx.rule = ("one case = one scenario in a child process: a constructor call (36 names x file/string x 5 patterns; encoders on systematic codes; failures: ~36 malformed alists, 10 near-miss "
                 "names, 11 malformed patterns on both constructors, unreadable paths, singular tails), followed for valid handles by 6 decode calls (f64/f32, output lengths 0..n, limits 0..50, "
-                "12 LLR classes) or 6 encode calls interleaved over two handles (from the third call on some bytes are neither 0 nor 1: such a call is compared with a fresh handle given the same buffer); non-UTF-8 C strings as pattern / name / alist; each C call is paired with the Rust API result on fresh objects; non-trivial = distinct Decode/Encode calls + "
+                "13 LLR classes) or 6 encode calls interleaved over two handles (from the third call on some bytes are neither 0 nor 1: such a call is compared with a fresh handle given the same buffer); non-UTF-8 C strings as pattern / name / alist; each C call is paired with the Rust API result on fresh objects; non-trivial = distinct Decode/Encode calls + "
                 "constructor failures")
     ctx.tlc_mc("MC_Factory")
     ctx.vh("gen", "i2s", timeout=3000)
